@@ -122,6 +122,10 @@ def conforming_delivery_control(e, g):
     return [ctl]
 
 
+C05_NEED = ["InterchainTransfer/ok", "InterchainTransfer/positive_amount", "InterchainTransfer/balance", "InterchainTransfer/destination_trusted",
+            "InterchainTransfer/registered", "InterchainTransfer/gas_positive", "InterchainTransfer/gas_balance", "Deliver/ok", "Deliver/custody",
+            "Deliver/receiver_ok", "DeployInterchainToken/ok", "RegisterCanonical/ok", "RemoveTrusted/ok"]
+
 PROPS = {
     "C02": {
         "title": "Each message is approved once and executed once, only by its destination",
@@ -348,6 +352,20 @@ PROPS = {
         "level_text": "TLC proves gate (every guard held in the pre-state of an executed delivery), exactly-once, 'rejected deliveries leave balances, registrations and the approval record untouched' and acceptance of conforming deliveries on every transition of a finite instance containing one conforming delivery of each kind and every single deviation the statement lists (approval-table deviations under tracked ids, payload / chain / address deviations under fresh ids), over trusted-chain histories; whether a mutated payload decodes is decided by Abi!Decode.  All transitions are executed against the real service, gateway, tokens and receiver contracts, with payload bytes built by the harness's own encoder.",
         "rule": "cases = transitions of the bounded TLC instance replayed against the contracts; distinct = distinct (abstract pre-state, action) pairs",
         "assumptions": ["soroban-env-host test mode implements on-chain semantics", "service-deployed tokens run the pinned interchain_token.wasm", "the harness's own ABI codec is cross-validated against Abi.tla by the C10 check"],
+    },
+    "C05": {
+        "title": "Interchain transfers conserve value and announce exactly what was taken",
+        "policy": {"guards": ["positive_amount", "balance", "custody", "destination_trusted", "registered", "gas_positive", "gas_balance", "its_can_mint", "receiver_ok"],
+                   "fields": ["bal", "gas"], "events": ["contract_called", "gas_paid", "transfer_received", "token_executed"], "rets": []},
+        "jobs": [
+            {"kind": "graph", "spec": "MC_C05", "cfg": "MC_C05_small", "tiers": ["quick"], "module": "ITS", "evkinds": ITS_EVENTS,
+             "need": C05_NEED, "control": other_amount_control, "max_len": 40, "workers": 16},
+            {"kind": "graph", "spec": "MC_C05", "cfg": "MC_C05_full", "tiers": ["thorough"], "module": "ITS", "evkinds": ITS_EVENTS,
+             "need": C05_NEED + ["MinterMint/ok"], "control": other_amount_control, "max_len": 40, "workers": 16, "tlc_timeout": 3600},
+        ],
+        "level_text": "TLC proves custody = locked - released >= 0 with the canonical token's supply conserved, service-deployed supply changing only by outbound burns, inbound mints, the initial supply and minters' own mints, exact debit / gas / announcement on every successful outbound transfer (trusted destination, positive amount), exact credit inbound, and the frame rule, on every transition of a finite instance (all interleavings; every outbound transfer costs gas); the transitions are executed against the real service, gateway, gas service, a Stellar asset contract and the pinned interchain token; the announced payload bytes are decoded by the harness's own codec and compared field by field.",
+        "rule": "cases = transitions of the bounded TLC instance replayed against the contracts; distinct = distinct (abstract pre-state, action) pairs",
+        "assumptions": ["soroban-env-host test mode implements on-chain semantics", "the harness's own ABI codec is cross-validated against Abi.tla by the C10 check", "bounds: 2 users, 2-3 tokens, amounts -1..3, gas budget 2-4 units"],
     },
 }
 
